@@ -203,6 +203,25 @@ _CAPALL = '''def capitalize_all(v, name='', md={}):
 special_formats = {'''
 
 CATALOGUE['C04'] = [
+    V('thousands_commas re-taints before the fraction is appended',
+      'DT_Var.py',
+      """    v = v + s
+    if wastainted and '<' in v:
+        v = TaintedString(v)
+    return v""",
+      """    if wastainted and '<' in v:
+        v = TaintedString(v)
+    return v + s""", 'C04.R1'),
+    V('fraction rebuilt by a comprehension, re-taint too early',
+      'DT_Var.py',
+      """    v = v + s
+    if wastainted and '<' in v:
+        v = TaintedString(v)
+    return v""",
+      """    s = ''.join(part for part in [s])
+    if wastainted and '<' in v:
+        v = TaintedString(v)
+    return v + s""", 'C04.R1'),
     V('lower drops the mark', 'DT_Var.py',
       'def lower(val):\n    return val.lower()',
       'def lower(val):\n    return str(val).lower()', 'C04.R1'),
@@ -328,6 +347,36 @@ CATALOGUE['C04'] = [
 
 # --------------------------------------------------------------------- C06
 CATALOGUE['C06'] = [
+    V('prefix grammar: str.isidentifier', 'DT_Util.py',
+      "simple_name = re.compile('^[a-z][a-z0-9_]*$', re.I).match",
+      "simple_name = str.isidentifier", 'C06.R7'),
+    V('prefix grammar: leading underscore accepted', 'DT_Util.py',
+      "simple_name = re.compile('^[a-z][a-z0-9_]*$', re.I).match",
+      "simple_name = re.compile('^[a-z_][a-z0-9_]*$', re.I).match", 'C06.R7'),
+    V('prefix grammar: not anchored at the end', 'DT_Util.py',
+      "simple_name = re.compile('^[a-z][a-z0-9_]*$', re.I).match",
+      "simple_name = re.compile('^[a-z][a-z0-9_]*', re.I).match", 'C06.R7'),
+    V('silent: prefix grammar spelt with \\w and re.A', 'DT_Util.py',
+      "simple_name = re.compile('^[a-z][a-z0-9_]*$', re.I).match",
+      "simple_name = re.compile(r'^[a-zA-Z]\\w*$', re.A).match"),
+    V('start-tag arguments follow the continuation', 'DT_String.py',
+      """        sa = sargs
+        while 1:""",
+      """        while 1:""", 'C06.R8',
+      extra=[("""                tag, args, command, coname = self._parseTag(mo, scommand, sa)
+            except ParseError as m:
+                self.parse_error(m.args[0], m.args[1], text, l_)
+
+            if command:
+                start = l_ + len(tag)
+                if hasattr""", """                tag, args, command, coname = self._parseTag(mo, scommand,
+                                                            sargs)
+            except ParseError as m:
+                self.parse_error(m.args[0], m.args[1], text, l_)
+
+            if command:
+                start = l_ + len(tag)
+                if hasattr""")]),
     V('param pattern made ambiguous', 'DT_Util.py',
       """qunparmre=re.compile('([\\000- ]*("[^"]*"))')""",
       """qunparmre=re.compile('([\\000- ]*("(.*)*"))')""", 'C06.R1'),
@@ -585,6 +634,9 @@ CATALOGUE['C14'] = [
 
 # --------------------------------------------------------------------- C09
 CATALOGUE['C09'] = [
+    V('call gets its own render', 'DT_Var.py',
+      "        self.simple_form = ('i', expr, None)",
+      "        self.expr = expr", 'C09.R4'),
     V('cache store dropped', '_DocumentTemplate.py',
       """                            else:
                                 cache[n] = cond
@@ -802,6 +854,22 @@ CATALOGUE['C02'] = [
 
 # --------------------------------------------------------------------- C05
 CATALOGUE['C05'] = [
+    V('guards installed on the caller\'s namespace too', 'DT_String.py',
+      """            md.guarded_getattr = self.guarded_getattr
+            md.guarded_getitem = self.guarded_getitem
+            if client is not None:""",
+      """            if client is not None:""", 'C05.R6',
+      extra=[("""        level = md.level
+        if level > 200:""", """        md.guarded_getattr = self.guarded_getattr
+        md.guarded_getitem = self.guarded_getitem
+        level = md.level
+        if level > 200:""")]),
+    V('refused branches deleted in ascending order', 'TreeTag.py',
+      """                    items = list(items)
+                    unauth.reverse()
+                    for index in unauth:""",
+      """                    items = list(items)
+                    for index in unauth:""", 'C05.R7'),
     V('InstanceDict uses plain getattr', '_DocumentTemplate.py',
       """        get = self.guarded_getattr
         if get is None:
@@ -1083,6 +1151,11 @@ CATALOGUE['C12'] = [
 
 # --------------------------------------------------------------------- C13
 CATALOGUE['C13'] = [
+    V('multi-key: falsy keys become the smallest key', 'DT_In.py',
+      """                        if akey is None:
+                            akey = _Smallest
+                        k.append(akey)""",
+      """                        k.append(akey or _Smallest)""", 'C13.R4'),
     V('reverse in place', 'DT_In.py',
       """        s = list(sequence)
         s.reverse()
@@ -1286,6 +1359,12 @@ CATALOGUE['C15'] = [
 
 # --------------------------------------------------------------------- C03
 CATALOGUE['C03'] = [
+    V('fast path predicate as a regex without the apostrophe',
+      '_DocumentTemplate.py',
+      """                        if ('&' in t or '<' in t or '>' in t or '"' in t or  # NOQA: W504,E501
+                                "'" in t):""",
+      """                        if re.compile('[&<>"]').search(t):""", 'C03.R2',
+      extra=[("from Acquisition import aq_base", "import re\nfrom Acquisition import aq_base")]),
     V('escaper without quote flag', 'html_quote.py',
       "    return escape(v, 1)", "    return escape(v, 0)", 'C03.R1'),
     V('escaper quote=False keyword', 'html_quote.py',
@@ -1350,6 +1429,23 @@ CATALOGUE['C03'] = [
 
 # --------------------------------------------------------------------- C19
 CATALOGUE['C19'] = [
+    V('section parsed by the sub-template', 'DT_String.py',
+      """                section._v_blocks = section.blocks = self.parse(
+                    text[:l_], sstart)""",
+      """                section._v_blocks = section.blocks = section.parse(
+                    text[:l_], sstart)""", 'C19.R1c'),
+    V('exceptions with their own __str__ use it', 'ustr.py',
+      """def _exception_str(exc):
+    if hasattr(exc, 'args'):""",
+      """def _exception_str(exc):
+    if type(exc).__str__ is not BaseException.__str__:
+        return str(exc)
+    if hasattr(exc, 'args'):""", 'C19.R4'),
+    V('Var.render converts with str()', 'DT_Var.py',
+      """            if not isinstance(val, TaintedString):
+                val = ustr(val)""",
+      """            if not isinstance(val, (str, TaintedString)):
+                val = str(val)""", 'C19.R5'),
     V('block commands constructed without encoding', 'DT_String.py',
       "r = scommand(blocks, encoding=encoding)", "r = scommand(blocks)",
       'C19.R1a'),
@@ -1410,6 +1506,18 @@ CATALOGUE['C19'] = [
 
 # --------------------------------------------------------------------- C17
 CATALOGUE['C17'] = [
+    V('munge: empty mapping ignored', 'DT_String.py',
+      "        if mapping is not None or vars:",
+      "        if mapping or vars:", 'C17.R7'),
+    V('int_param stores the converted value in the tag arguments',
+      'DT_In.py',
+      """            if type(v) is st:
+                v = int(v)
+    return v""",
+      """            if type(v) is st:
+                v = int(v)
+        params[name] = v
+    return v""", 'C17.R1'),
     V('template remembers its last result', 'DT_String.py',
       """                self.ZDocumentTemplate_afterRender(md, result)
                 return result""",
@@ -1629,6 +1737,17 @@ CATALOGUE['C18'] = [
 
 # --------------------------------------------------------------------- C10
 CATALOGUE['C10'] = [
+    V('alias split at the first underscore', 'DT_InSV.py',
+      """            alt_prefix = self.alt_prefix
+            if not (alt_prefix and key.startswith(alt_prefix)):
+                raise KeyError(key)
+
+            suffix = key[len(alt_prefix):].replace('_', '-')""",
+      """            head, sep, tail = key.partition('_')
+            if not sep or head + sep != self.alt_prefix:
+                raise KeyError(key)
+
+            suffix = tail.replace('_', '-')""", 'C10.R2'),
     V('element read off by one', 'DT_In.py',
       """                else:
                     client = sequence[index]
@@ -1854,6 +1973,9 @@ CATALOGUE['C11'] = [
 
 # --------------------------------------------------------------------- C01
 CATALOGUE['C01'] = [
+    V('EPFS format accepts any run of digits and dots', 'DT_String.py',
+      "'\\\\)(?P<fmt>[0-9]*[.]?[0-9]*[a-z]|[]![])',  # end",
+      "'\\\\)(?P<fmt>[0-9.]*[a-z]|[]![])',  # end", 'C01.R6'),
     V('eol also eats other whitespace', 'DT_String.py',
       "eol=re.compile('[ \\t]*\\n')", "eol=re.compile('\\\\s*\\n')",
       'C01.R1'),
@@ -2026,6 +2148,41 @@ CATALOGUE['C07'] = [
 
 # --------------------------------------------------------------------- C20
 CATALOGUE['C20'] = [
+    V('path not popped on exit', 'TreeTag.py',
+      """    del diff[-1]
+    if not diff:""",
+      """    if len(diff) == 1:""", 'C20.R6'),
+    V('own id appended twice', 'TreeTag.py',
+      """    else:
+        diff.append(id)
+
+    _td_colspan""",
+      """    else:
+        diff.append(id)
+        diff.append(id)
+
+    _td_colspan""", 'C20.R6'),
+    V('clicked node found by id, not position', 'TreeTag.py',
+      """            if not diff and not expand:
+                del s[loc]""",
+      """            if id == last and not expand:
+                del s[loc]""", 'C20.R7',
+      extra=[("    diff.reverse()\n", "    last = diff[-1]\n    diff.reverse()\n")]),
+    V('expand_all: recursion outside the per-item handler', 'TreeTag.py',
+      """            try:
+                if get_items(item):
+                    id = extract_id(item, args['id'])
+
+                    e = tpValuesIds(item, get_items, args)""",
+      """            sub_ids = tpValuesIds(item, get_items, args)
+            try:
+                if get_items(item):
+                    id = extract_id(item, args['id'])
+
+                    e = sub_ids""", 'C20.R8'),
+    V('pruning loop made live', 'TreeTag.py',
+      "for i in range(len(substate) - 1, -1):",
+      "for i in range(len(substate) - 1, -1, -1):", 'C20.R4'),
     V('decoder forgets the translation', 'TreeTag.py',
       "    state = state.translate(tminus)\n    l_ = len(state)",
       "    l_ = len(state)", 'C20.R1'),
